@@ -48,7 +48,6 @@ let rec show_val = function
   | VBool b -> if b then "b:1" else "b:0"
   | VStr s -> "s:" ^ show_str s
   | VNil -> "nil"
-  | VSome v -> "o(" ^ show_val v ^ ")"
   | VVec l -> "v[" ^ String.concat ";" (List.map show_val l) ^ "]"
 
 let show_outcome = function
